@@ -404,7 +404,7 @@ func c11r1(c *RC) {
 			return true
 		})
 	}
-	c.Floor("storage access sites in package frame", sites, 18)
+	c.Floor("storage access sites in package frame", sites, 12)
 	c.Note("%d storage access sites examined", sites)
 }
 
@@ -641,7 +641,7 @@ func c11r3(c *RC) {
 			c.Check(x == "copied", fq+"|every-path-copies|"+exitKey(fl, s, ret), fl.exitPos(s, ret), "assign returns on a path that copied nothing (neither a guarded raw copy nor typedmemmove)", s.Trail()...)
 		},
 	})
-	c.Floor("raw copies in assign", nraw, 5)
+	c.Floor("raw copies in assign", nraw, 4)
 	if nexit == 0 {
 		c.Undecide("assign: no exits")
 	}
@@ -846,7 +846,7 @@ func c11r5(c *RC) {
 				fmt.Sprintf("the zeroing overlay is []%s with Len=%s Cap=%s for case %s: it does not cover exactly n elements of the column type, so Frame.Zero clears bytes of rows after the view (or leaves a tail uncleared)", typeString(elem), lenE, capE, label))
 		}
 	}
-	c.Floor("zeroing overlays in internal/zero", nsites, 8)
+	c.Floor("zeroing overlays in internal/zero", nsites, 6)
 }
 
 func parseInt(s string) (int64, error) {
